@@ -133,7 +133,8 @@ function runChunk(job) {
       let gotErr = null
       try {
         const w = new ProcGenWrapper(procGen)
-        w.create(data)
+        // (a shallow copy: faulty generated code such as `++D.a` must not change what the oracles see)
+        w.create(Object.assign({}, data))
         const root = w.shadowRoot.childNodes[0]
         got = root.attrs.r.a
         if (!('a' in root.attrs.r)) gotErr = 'no value delivered'
